@@ -211,7 +211,7 @@ KNOWN = {
     "K-rename-orphan@C18": lambda case, sql, inv, d: inv == "tables" and "rename" in sql and not d["in_summaries_not_exported"]
     and {t.split(".")[-1] for t in d["exported_not_in_summaries"]} <= _renamed_tables(sql),
     "K-scalar-subquery-schema@C18": lambda case, sql, inv, d: inv == "tables" and not d["in_summaries_not_exported"]
-    and all(t.startswith("<default>.") and re.search(r"\(\s*select.{0,200}?from\s+\w+\." + re.escape(t.split(".")[-1]) + r"\b", sql, flags=re.S)
+    and all(t.startswith("<default>.") and re.search(r"\(\s*select.{0,400}?(\b" + re.escape(t.split(".")[-1]) + r"\.\w|\w\." + re.escape(t.split(".")[-1]) + r"\b)", sql, flags=re.S)
             for t in d["exported_not_in_summaries"]),
 }
 
